@@ -25,6 +25,10 @@ def corpus():
             ('alloc_put', 39, cons(2, None, [(2, [(0, 1)])])),
             ('rp_create', 39, 3, 3, None), ('rc_create', 39, 1000), ('trait_put', 39, 100001)]
     # generations after setup: rp1 = 3, rp2 = 2, rp3 = 0; consumer 2 gen 1
+    many = list(base)
+    for u in range(10, 16):
+        many += [('rp_create', 39, u, u, None), ('inv_set', 39, u, 0, [inv(rc, 4) for rc in range(17)])]
+    many.append(('alloc_put', 39, cons(4, None, [(u, [(rc, 1) for rc in range(17)]) for u in range(10, 16)])))
     C = [
         ('rp-create-child', base, ('rp_create', 39, 4, 4, 2)),
         ('rp-reparent', base, ('rp_update', 39, 2, 2, 3)),
@@ -39,6 +43,7 @@ def corpus():
         ('traits-set', base, ('traits_set', 39, 1, 3, [1, 2])),
         ('traits-delete', base, ('traits_delete', 39, 1)),
         ('aggs-set', base, ('aggs_set', 39, 1, 3, [2, 3])),
+        ('aggs-set-keep-one-add-one', base, ('aggs_set', 39, 1, 3, [1, 2])),
         ('put-new-consumer-two-providers', base, ('alloc_put', 39, cons(3, None, [(1, [(0, 2), (2, 10)]), (2, [(0, 1)])]))),
         ('put-existing-consumer', base, ('alloc_put', 39, cons(2, 1, [(1, [(0, 3)])]))),
         ('put-empty', base, ('alloc_put', 39, cons(2, 1, []))),
@@ -53,6 +58,8 @@ def corpus():
         ('put-empty-three-providers', base + [('inv_set', 39, 3, 0, [inv(0, 4)]),
                                               ('alloc_put', 39, cons(4, None, [(1, [(0, 1)]), (2, [(0, 1)]), (3, [(0, 2)])]))],
          ('alloc_put', 39, cons(4, 1, []))),
+        # a consumer with more rows than any batch size a delete might be split into (6 providers x 17 classes)
+        ('alloc-delete-102-rows', many, ('alloc_delete', 4)),
         ('reshape', base, ('reshape', 39, [(2, 2, [inv(0, 8), inv(1, 32)])], [cons(2, 1, [(2, [(0, 1), (1, 4)])]), cons(3, None, [(1, [(0, 1)])])])),
         ('reshape-no-allocations-two-providers', base, ('reshape', 39, [(1, 3, [inv(0, 8)]), (3, 0, [inv(2, 100), inv(1, 64)])], [])),
         ('reshape-no-allocations-one-provider', base, ('reshape', 39, [(3, 0, [inv(0, 4)])], [])),
